@@ -1081,6 +1081,17 @@ class Gen:
       for (rk, p, srcs) in comb_targets:
         groups[rng.randrange(ng)].append((p, srcs))
       blocks = [g for g in groups if g]
+    # p_digit_names: block names that end in digits and have no separator ("u", "u1", "u12", ...), so that generated code which
+    # glues a name and a schedule index together can confuse two blocks
+    dpool = None
+    if k.get("p_digit_names") and rng.random() < k["p_digit_names"]:
+      dpool = ["", "1", "2", "3", "11", "12", "13", "21", "22", "23", "31", "111", "112", "121", "211", "1_", "2_"]
+      rng.shuffle(dpool)
+      self.design.setdefault("stats", {}).setdefault("classes_with_digit_block_names", 0); self.design["stats"]["classes_with_digit_block_names"] += 1
+    def bname(kind, bi):
+      if dpool: return "u" + dpool.pop()
+      return f"up_{bi}" if kind == "comb" else f"ff_{bi}"
+    comb_names = {}
     for bi, tg in enumerate(blocks):
       stmts = []
       ntmp = 0
@@ -1134,7 +1145,8 @@ class Gen:
           stmts += self.assign_stmts(p, srcs, "comb")
       if k.get("p_tmp_loopname") and rng.random() < k["p_tmp_loopname"]:
         stmts = self.share_loop_name(stmts)
-      blk = {"name": f"up_{bi}", "kind": "comb", "stmts": stmts}
+      blk = {"name": bname("comb", bi), "kind": "comb", "stmts": stmts}
+      comb_names[bi] = blk["name"]
       def lambda_target(r):
         # a whole signal / list element, or (p_lambda_part) ONE field, bit or slice of it:  s.out[0:4] //= lambda: ...
         if "." in r["path"] or r.get("sym"): return False
@@ -1165,7 +1177,7 @@ class Gen:
           if rv is not None:
             body = [["if", ["rd", {"path": "reset", "steps": [], "lo": 0, "w": 1}], [["=", p, rv]], body]]
         stmts += body
-      cls["blocks"].append({"name": f"ff_{bi}", "kind": "ff", "stmts": stmts}); bi += 1
+      cls["blocks"].append({"name": bname("ff", bi), "kind": "ff", "stmts": stmts}); bi += 1
       if k.get("p_annot") and rng.random() < k["p_annot"]: cls["blocks"][-1]["annot"] = True
       i += n
     # explicit constraints consistent with the dataflow order (comb blocks are numbered in rank order)
@@ -1177,11 +1189,11 @@ class Gen:
         whole = [p for (p, _) in blocks[i] if not p["steps"] and "." not in p["path"]]
         kind = rng.randrange(3)
         if kind == 0 or not whole:
-          cls["constraints"].append(f"U(up_{i}) < U(up_{j})")
+          cls["constraints"].append(f"U({comb_names[i]}) < U({comb_names[j]})")
         elif kind == 1:
-          cls["constraints"].append(f"WR({ref_text(rng.choice(whole))}) < U(up_{j})")
+          cls["constraints"].append(f"WR({ref_text(rng.choice(whole))}) < U({comb_names[j]})")
         else:
-          cls["constraints"].append(f"RD({ref_text(rng.choice(whole))}) > U(up_{i})")
+          cls["constraints"].append(f"RD({ref_text(rng.choice(whole))}) > U({comb_names[i]})")
     cls["constraints"] = sorted(set(cls["constraints"]))
     if k.get("p_nested_slice"):
       # slices of slices in connect statements:  s.x[A:B]  ->  s.x[a:b][A-a:B-a]  (same bits)
